@@ -33,17 +33,30 @@
   delete by position / name                  deleteNth_hosts; C02.delete_host_exact
   positions returned by lookup               find_sound, find_eq_idxOf (small names); find_miss_big_suffix (F16-BIGSUFFIX)
   counts                                     deleteNth_hosts (.count), uniq_count, Good invariants
-  hosts seen by EVERY live iterator          edit_refines_multi_new/_free/_reset/_next/_shift/_pop/_push/_uniq;
+  hosts seen by EVERY live iterator          edit_refines_multi_new/_free/_reset/_next/_remove/_shift/_pop/_push/
+                                             _push_text/_delete_nth/_delete_host/_find/_uniq/_sort_reset;
                                              one iterator: edit_refines_* (also remove, uniq, push text)
   duplicates removed, none lost              uniq_names, edit_refines_uniq (IF duplicate-free); uniq_keeps_duplicate (F16-UNIQ)
 
-  Not proved (correspondence + witnesses only): `hostlist_remove` / `hostlist_delete_nth` /
-  `hostlist_delete_host` as seen by OTHER live iterators (`hostlist_host_deleted`, the repair of
-  F16-MULTI / F16-DELETE-UNDER-ITERATOR: `multi_witness`, `delete_under_iterator_witness` and the
-  three-way correspondence with up to 3 live iterators); `hostlist_sort` (not in the editable model: judged against the
-  plain-list specification only); a push while an iterator stands at the end (true once F16-ENDPUSH is
-  repaired: `endpush_witness`; `AtPos` / `itNext_none_pos` of Hostlist/LemmasIterEdit.lean are the
-  invariant it needs); duplicate-freedom after `uniq` (false: F16-UNIQ).
+  Proved since (round 2b): `edit_refines_delete_nth` — ONE iterator standing ANYWHERE keeps its place in the
+  plain list's terms when `hostlist_delete_nth` takes ANY position away (the repairs of
+  F16-DELETE-UNDER-ITERATOR / F16-MULTI, `hostlist_host_deleted`, and of D19), and from it, for ANY finite
+  set of live iterators, `edit_refines_multi_delete_nth`, `_find`, `_delete_host` (SMALL name) and
+  `_remove` (`hostlist_remove` through one iterator is `hostlist_delete_nth` for all the OTHERS).
+
+  `hostlist_sort` IS in the editable model now (Hostlist/EditSort.lean: `qsort`, reset of every iterator,
+  `hostlist_coalesce` with `hostrange_intersect` and the re-insertion of one-host records, `hostlist_collapse`;
+  three-way correspondence incl. the record dump).  Proved: the `qsort` step gives a permutation of the
+  records in which each compares ≤ its successor (`sort_qsort_sorted`, repaired comparator D26), and with the
+  reset it refines the plain list's `sort` for ANY number of live iterators (`edit_refines_multi_sort_reset`).
+  Not proved (correspondence + the spec's `sortOk` on every run): `hostlist_coalesce` / `hostlist_collapse`
+  keep the multiset of hosts and leave the (reset) iterators alone (`sort_coalesce_witness`: one instance);
+  duplicate-freedom after `uniq` (false: F16-UNIQ; true under a hypothesis that excludes mixed widths AND
+  digit-ending prefixes — not proved).
+  A push while the iterator stands AT THE END: `edit_refines_push_inside` (one iterator; `Inside` = it stands
+  on a record that exists — what the repaired F16-ENDPUSH keeps true when `hostlist_next` answers NULL,
+  `edit_refines_next_inside`), `edit_refines_push_end_next` (the next `hostlist_next` hands out the first
+  new host); `Inside` is carried through next / create / reset / push only, and for one iterator.
 -/
 import PdshVerif.Hostlist.LemmasFind
 import PdshVerif.Hostlist.LemmasUniq
@@ -53,6 +66,10 @@ import PdshVerif.Hostlist.EditRefineText
 import PdshVerif.Hostlist.EditRefineUniq
 import PdshVerif.Hostlist.EditMultiKeyed
 import PdshVerif.Hostlist.EditMultiUniq
+import PdshVerif.Hostlist.EditMultiRemove2
+import PdshVerif.Hostlist.EditPushEnd
+import PdshVerif.Hostlist.EditSortRefine
+import PdshVerif.Hostlist.EditMultiText
 
 namespace PdshVerif.C16
 open PdshVerif.Hostlist PdshVerif.Gen
@@ -235,6 +252,52 @@ theorem uniq_count (cfg : Cfg) (e e' : EL) (hg : e.Good) (hid : e.IdsOk)
     (h : uniqE cfg e = some e') : e'.nhosts = (e'.hosts.length : Int) ∧ e'.IdsOk :=
   ⟨(uniqE_keep cfg e e' hg hid hb hsm h).1.2, (uniqE_keep cfg e e' hg hid hb hsm h).2⟩
 
+/-! ### a push while the iterator stands at the end (F16-ENDPUSH repaired) -/
+/-- PUSH from anywhere INSIDE the list, the end included (`Inside`: the iterator stands on a record that
+    exists and not beyond its hosts): the iterator will reach the new hosts, and is still inside -/
+theorem edit_refines_push_inside (cfg : Cfg) (hfs : cfg.fixIterSuffix = true) (e : EL) (p : EditSpec.PL) (c : Nat)
+    (fresh : Bool) (h : Ref cfg e p c fresh) (hin : Inside e) (r : HRange) (hr : r.Good) :
+    Ref cfg (pushRangeE e r) { p with names := p.names ++ r.hosts } c false ∧ Inside (pushRangeE e r) :=
+  push_refines_inside cfg hfs e p c fresh h hin r hr
+
+/-- F16-ENDPUSH repaired: `hostlist_next` leaves the iterator inside the list, also when it answers NULL -/
+theorem edit_refines_next_inside (cfg : Cfg) (hfx : cfg.fixEndPush = true) (e : EL) (p : EditSpec.PL) (c : Nat)
+    (fresh : Bool) (h : Ref cfg e p c fresh) (hin : Inside e) (a : Option Str) (e' : EL)
+    (hn : itNext cfg e 0 = .ok (a, e')) : Inside e' :=
+  next_keeps_inside cfg hfx e p c fresh h hin a e' hn
+
+/-- the iterator ran out, a record is pushed: the next `hostlist_next` hands out its first host -/
+theorem edit_refines_push_end_next (cfg : Cfg) (hfs : cfg.fixIterSuffix = true) (e : EL) (p : EditSpec.PL) (c : Nat)
+    (fresh : Bool) (h : Ref cfg e p c fresh) (hin : Inside e) (hend : c = p.names.length) (r : HRange) (hr : r.Good) :
+    ∃ x e' p', r.hosts.head? = some x ∧ itNext cfg (pushRangeE e r) 0 = .ok (some x, e') ∧ Ref cfg e' p' (c + 1) true := by
+  obtain ⟨h1, _⟩ := push_refines_inside cfg hfs e p c fresh h hin r hr
+  obtain ⟨a, p', e', c', hs, hn, hr'⟩ := next_refines cfg _ _ c false h1
+  have hpos := hr.hosts_pos
+  obtain ⟨x, xs, hx⟩ : ∃ x xs, r.hosts = x :: xs := by
+    cases hh : r.hosts with
+    | nil => rw [hh] at hpos; simp at hpos
+    | cons x xs => exact ⟨x, xs, rfl⟩
+  have hget : (p.names ++ r.hosts)[c]? = some x := by
+    rw [hend, List.getElem?_append_right (Nat.le_refl _), Nat.sub_self, hx]; rfl
+  have hgc : EditSpec.getCur ({ p with names := p.names ++ r.hosts } : EditSpec.PL) 0 = some c := by
+    unfold EditSpec.getCur; rw [show ({ p with names := p.names ++ r.hosts } : EditSpec.PL).cur = p.cur from rfl, h.cur]; simp
+  have hs' : EditSpec.itNext ({ p with names := p.names ++ r.hosts } : EditSpec.PL) 0 =
+      some (some x, EditSpec.setCur { p with names := p.names ++ r.hosts } 0 (c + 1)) := by
+    unfold EditSpec.itNext; rw [hgc]; simp [hget]
+  rw [hs'] at hs
+  simp only [Option.some.injEq, Prod.mk.injEq] at hs
+  obtain ⟨ha, hp'⟩ := hs
+  subst ha
+  have hc' : c' = c + 1 := by
+    have := hr'.cur
+    rw [← hp'] at this
+    unfold EditSpec.setCur at this
+    rw [show ({ p with names := p.names ++ r.hosts } : EditSpec.PL).cur = p.cur from rfl, h.cur] at this
+    simp at this
+    omega
+  subst hc'
+  exact ⟨x, e', p', by rw [hx]; rfl, hn, hr'⟩
+
 /-! ### `edit_refines_multi`: ANY finite set of live iterators refines the plain list with one cursor each
 
   `RefM cfg e p fr`: slot by slot the iterators of `e` and the cursors of `p` carry the same keys, and
@@ -294,6 +357,60 @@ theorem edit_refines_multi_uniq (cfg : Cfg) (hfs : cfg.fixIterSuffix = true) (e 
       RefM cfg e' ⟨e'.hosts, p.cur.map fun (k, _) => (k, 0)⟩ (fun _ => false) :=
   uniq_refinesM cfg hfs e p fr h hb hsm hreset e' hu hnd
 
+/-- DELETE BY POSITION under ONE live iterator standing anywhere (F16-DELETE-UNDER-ITERATOR and D19
+    repaired): the cursor moves down by one exactly when the deleted position lay in front of it -/
+theorem edit_refines_delete_nth (cfg : Cfg) (hfs : cfg.fixIterSuffix = true) (hD19 : cfg.fixRemoveDepth = true)
+    (hID : cfg.fixIterDelete = true) (e : EL) (p : EditSpec.PL) (c : Nat) (fresh : Bool) (h : Ref cfg e p c fresh)
+    (n : Nat) (hn : n < p.names.length) :
+    Ref cfg (deleteNthE cfg e n) (EditSpec.deleteNth p n) (if c > n then c - 1 else c) false :=
+  deleteNth_refines cfg hfs hD19 hID e p c fresh h n hn
+
+/-- DELETE BY POSITION with any number of live iterators: EVERY iterator goes on over the list without
+    position n from where it stood -/
+theorem edit_refines_multi_delete_nth (cfg : Cfg) (hfs : cfg.fixIterSuffix = true) (hD19 : cfg.fixRemoveDepth = true)
+    (hID : cfg.fixIterDelete = true) (e : EL) (p : EditSpec.PL) (fr : Nat → Bool) (h : RefM cfg e p fr)
+    (n : Nat) (hn : n < p.names.length) :
+    RefM cfg (deleteNthE cfg e n) (EditSpec.deleteNth p n) (fun _ => false) :=
+  deleteNth_refinesM cfg hfs hD19 hID e p fr h n hn
+
+/-- FIND with any number of live iterators: no iterator moves (a width may be rewritten in place), and for a
+    SMALL name the answer is the plain list's: the first position of the name or -1 -/
+theorem edit_refines_multi_find (cfg : Cfg) (hfs : cfg.fixIterSuffix = true) (e : EL) (p : EditSpec.PL)
+    (fr : Nat → Bool) (h : RefM cfg e p fr) (x : Str) :
+    RefM cfg (findE e x).2 p fr ∧ (SmallName x → (findE e x).1 = EditSpec.find p x) :=
+  find_refinesM cfg hfs e p fr h x
+
+/-- DELETE BY NAME with any number of live iterators (SMALL name; F16-BIGSUFFIX is outside): the answer and
+    the list are the plain list's — the first occurrence goes — and every iterator follows -/
+theorem edit_refines_multi_delete_host (cfg : Cfg) (hfs : cfg.fixIterSuffix = true) (hD19 : cfg.fixRemoveDepth = true)
+    (hID : cfg.fixIterDelete = true) (e : EL) (p : EditSpec.PL) (fr : Nat → Bool) (h : RefM cfg e p fr)
+    (x : Str) (hsm : SmallName x) :
+    (deleteHostE cfg e x).1 = ((EditSpec.deleteHost p x).1 : Int) ∧
+      RefM cfg (deleteHostE cfg e x).2 (EditSpec.deleteHost p x).2 (fun k => (EditSpec.find p x).isNone && fr k) :=
+  deleteHost_refinesM cfg hfs hD19 hID e p fr h x hsm
+
+/-- REMOVE through iterator k, directly after a `hostlist_next` on k that handed out a host, with any
+    number of OTHER live iterators (F16-MULTI repaired): exactly that list position goes, iterator k goes
+    on with what it had left, and every other iterator keeps its place in the plain list's terms -/
+theorem edit_refines_multi_remove (cfg : Cfg) (hfs : cfg.fixIterSuffix = true) (hD19 : cfg.fixRemoveDepth = true)
+    (hID : cfg.fixIterDelete = true) (e : EL) (p : EditSpec.PL) (fr : Nat → Bool) (h : RefM cfg e p fr)
+    (k : Nat) (hk : k ∈ e.its.map (·.1)) (hfresh : fr k = true) :
+    ∃ p' e', EditSpec.itRemove p k = some p' ∧ itRemove cfg e k = .ok e' ∧ RefM cfg e' p' (fun _ => false) :=
+  remove_refinesM cfg hfs hD19 hID e p fr h k hk hfresh
+
+/-- PUSH, operation TEXT level, any number of live iterators (none at the end): `hostlist_push(hl, "expr")`
+    on the text of a well-formed expression answers the size of the mathematical expansion `expand₁`, the
+    list grows by exactly these names and every iterator will reach them -/
+theorem edit_refines_multi_push_text (cfg : Cfg) (hfs : cfg.fixIterSuffix = true) (e : EL) (p : EditSpec.PL)
+    (fr : Nat → Bool) (h : RefM cfg e p fr) (hlt : ∀ b ∈ p.cur, b.2 < p.names.length)
+    (lead : Str) (items : List (Spec.Word × Str))
+    (hl : lead.all Spec.sepChar = true) (hok : Spec.sepsOK items = true)
+    (hw : ∀ q ∈ items, q.1.WF = true) (hd : ∀ q ∈ items, wordDom cfg q.1) :
+    ∃ e', pushE cfg e (Spec.render lead items) =
+        .ok (((Spec.expand₁ (items.map (·.1))).length : Int), .none, e') ∧
+      RefM cfg e' { p with names := p.names ++ Spec.expand₁ (items.map (·.1)) } (fun _ => false) :=
+  push_text_refinesM cfg hfs e p fr h hlt lead items hl hok hw hd
+
 /-- the empty list without iterators is in the relation (so is everything the operations above reach) -/
 theorem edit_refines_multi_init (cfg : Cfg) : RefM cfg EL.new EditSpec.PL.new (fun _ => false) := by
   refine ⟨?_, List.nodup_nil, .nil⟩
@@ -316,6 +433,62 @@ example (cfg : Cfg) (hfs : cfg.fixIterSuffix = true) (hfix : cfg.fixRemoveDepth 
     simp only [List.length_map] at hl
     rw [hl]; rfl
   · rfl
+
+/-- non-vacuity of the delete / remove theorems: two iterators on `a[1-3]`, iterator 0 hands out a host and
+    removes it while iterator 1 is live, then position 0 is deleted under both -/
+example (cfg : Cfg) (hfs : cfg.fixIterSuffix = true) (hfix : cfg.fixRemoveDepth = true) (hID : cfg.fixIterDelete = true) :
+    ∃ e p fr, RefM cfg e p fr ∧ p.names.length = 1 ∧ p.cur.length = 2 := by
+  have h0 := edit_refines_multi_init cfg
+  have hg : (HRange.mk' ['a'] 1 3 1).Good := by decide
+  have h1 := edit_refines_multi_push cfg hfs _ _ _ h0 (HRange.mk' ['a'] 1 3 1) hg (by intro b hb; cases hb)
+  have h2 := edit_refines_multi_new cfg _ _ _ h1 0 (by decide)
+  have h3 := edit_refines_multi_new cfg _ _ _ h2 1 (by decide)
+  obtain ⟨a, p4, e4, hs4, _, h4⟩ := edit_refines_multi_next cfg _ _ _ h3 0 (by decide)
+  have hP : EditSpec.itNext (EditSpec.itNew (EditSpec.itNew
+      { EditSpec.PL.new with names := EditSpec.PL.new.names ++ (HRange.mk' ['a'] 1 3 1).hosts } 0) 1) 0 =
+      some (some "a1".toList, ⟨["a1".toList, "a2".toList, "a3".toList], [(1, 0), (0, 1)]⟩) := by decide
+  rw [hP] at hs4
+  simp only [Option.some.injEq, Prod.mk.injEq] at hs4
+  obtain ⟨ha, hp4⟩ := hs4
+  subst ha; subst hp4
+  have hk4 : 0 ∈ e4.its.map (·.1) := by
+    rw [All2.keys (fun a b hab => hab.1) h4.each]; decide
+  obtain ⟨p5, e5, hs5, _, h5⟩ := edit_refines_multi_remove cfg hfs hfix hID _ _ _ h4 0 hk4 (by simp)
+  have hR : EditSpec.itRemove ⟨["a1".toList, "a2".toList, "a3".toList], [(1, 0), (0, 1)]⟩ 0 =
+      some ⟨["a2".toList, "a3".toList], [(1, 0), (0, 0)]⟩ := by decide
+  rw [hR] at hs5
+  simp only [Option.some.injEq] at hs5
+  subst hs5
+  have h6 := edit_refines_multi_delete_nth cfg hfs hfix hID _ _ _ h5 0 (by decide)
+  exact ⟨_, _, _, h6, rfl, rfl⟩
+
+/-! ### `hostlist_sort` -/
+/-- the `qsort` step of `hostlist_sort` / `hostlist_uniq` with the REPAIRED comparator (D26): a permutation
+    of the records in which every record compares ≤ its successor by `hostrange_cmp` (what the `assert` of
+    `hostrange_join` relies on) -/
+theorem sort_qsort_sorted (cfg : Cfg) (hfix : cfg.fixCmpTrunc = true) (rs : List RObj) :
+    (sortRanges cfg rs).Perm rs ∧ AdjOrdered cfg (sortRanges cfg rs) :=
+  sortRanges_sorted cfg hfix rs
+
+/-- `hostlist_sort` up to `hostlist_coalesce`, any number of live iterators: the same names with the same
+    multiplicities (admissible for the plain list's `sort`) and EVERY iterator starts over -/
+theorem edit_refines_multi_sort_reset (cfg : Cfg) (hfs : cfg.fixIterSuffix = true) (e : EL) (p : EditSpec.PL)
+    (fr : Nat → Bool) (h : RefM cfg e p fr) :
+    EditSpec.sort p (sortReset cfg e).hosts = some ⟨(sortReset cfg e).hosts, p.cur.map fun (k, _) => (k, 0)⟩ ∧
+      RefM cfg (sortReset cfg e) ⟨(sortReset cfg e).hosts, p.cur.map fun (k, _) => (k, 0)⟩ (fun _ => false) :=
+  sortReset_refinesM cfg hfs e p fr h
+
+/-- `a[5-9],a[1-6]` sorted: `hostlist_coalesce` cuts the overlap a5, a6 out and re-inserts it as one-host
+    records, `hostlist_collapse` joins what continues: `a[1-5]`, `a5`, `a[6]`.. — 11 hosts before and after -/
+theorem sort_coalesce_witness :
+    (match pushE Cfg.repaired EL.new "a[5-9],a[1-6]".toList with
+     | .ok (_, _, e) =>
+       (match sortE Cfg.repaired e with
+        | .ok e' => some (e'.nhosts, e'.hosts.map String.ofList)
+        | .error _ => none)
+     | .error _ => none) =
+      some (11, ["a1", "a2", "a3", "a4", "a5", "a5", "a6", "a6", "a7", "a8", "a9"]) := by
+  decide
 
 /-! ### iterator scenarios (the recorded defects and their repairs) -/
 /-- run `hostlist_next` n times on iterator k -/
